@@ -3,6 +3,7 @@ package world
 import (
 	"bytes"
 	"fmt"
+	"github.com/ElrondNetwork/elrond-vm-common/txDataBuilder"
 	"math/big"
 	"strings"
 
@@ -54,6 +55,7 @@ func (w *World) ApplySC(a *SCAction) bool {
 		if !ok || amt.Sign() <= 0 {
 			return false
 		}
+		w.checkIssueRequest(t, amt)
 		m := w.control(shard, addr, spec.FnESDTTransfer, [][]byte{t.ID, amt.Bytes()}, "")
 		m.Mint = true
 		m.Carries = []spec.Carry{{Token: t.ID, Amount: amt}}
@@ -328,4 +330,48 @@ func (w *World) Redeliver(id string, fault []int) bool {
 	w.Run(&cp, fault)
 	w.handoverDone(&cp, true)
 	return true
+}
+
+// checkIssueRequest: the client transaction that asks the system contract for this issue, built with
+// the builder's own helpers (IssueESDT and the property helpers), must be the documented encoding
+// and parse back to what was put in (C12). The properties are derived from the amount, so that the
+// check replays with the event.
+func (w *World) checkIssueRequest(t *TokenInfo, amt *big.Int) {
+	supply := int64(1)
+	if amt.IsInt64() {
+		supply = amt.Int64()
+	}
+	bit := func(i uint) bool { return amt.Bit(int(i%uint(amt.BitLen()+1))) == 1 }
+	name := string(t.ID)
+	ticker := name
+	if i := strings.IndexByte(name, '-'); i > 0 {
+		ticker = name[:i]
+	}
+	dec := byte(amt.BitLen())
+	var data, pan string
+	func() {
+		defer func() {
+			if r := recover(); r != nil {
+				pan = fmt.Sprint(r)
+			}
+		}()
+		b := txDataBuilder.NewBuilder()
+		b.IssueESDT(name, ticker, supply, dec).CanFreeze(bit(0)).CanWipe(bit(1)).CanPause(bit(2)).CanMint(bit(3)).CanBurn(bit(4)).CanTransferNFTCreateRole(bit(5)).CanAddSpecialRoles(bit(6))
+		data = b.ToString()
+	}()
+	if pan != "" {
+		w.violate(spec.Violation{Props: spec.P("C12"), Clause: "builder", Detail: "the tx-data builder panicked on an issue request: " + pan})
+		return
+	}
+	tf := func(v bool) []byte {
+		if v {
+			return []byte("true")
+		}
+		return []byte("false")
+	}
+	args := [][]byte{[]byte(name), []byte(ticker), big.NewInt(supply).Bytes(), {dec}}
+	for i, p := range []string{"canFreeze", "canWipe", "canPause", "canMint", "canBurn", "canTransferNFTCreateRole", "canAddSpecialRoles"} {
+		args = append(args, []byte(p), tf(bit(uint(i))))
+	}
+	w.CheckBuilt("issue", args, data)
 }
